@@ -948,6 +948,58 @@ def fixed_default_orders(ctx):
                           dict(m, codec=cdc, bytes_plain=jsonable(e[0][1]), bytes_history=jsonable(e[1][1]), bytes_default_left_out=jsonable(e[2][1])))
 
 
+def completed_in_place_histories(ctx):
+    """A constructed element of an OPTIONAL / DEFAULT SEQUENCE OF or SET OF member comes into being by a READ (s[0] on
+    an empty list hands out a fresh element), the enclosing value is then USED while the element is still incomplete
+    (printed, compared, asked isValue, an encoding attempted), and only then is the element completed in place.  The
+    finished value must give the octets of the same content built the ordinary way (append of finished elements)."""
+    from pyasn1.type import univ as _u, namedtype as _nt
+    from pyasn1.codec.der import encoder as _der
+    from pyasn1.codec.cer import encoder as _cer
+    from pyasn1.codec.ber import encoder as _ber
+    el = _u.Sequence(componentType=_nt.NamedTypes(_nt.NamedType('id', _u.Integer()), _nt.OptionalNamedType('tags', _u.SequenceOf(componentType=_u.OctetString()))))
+    dflt = _u.SequenceOf(componentType=el); dflt.clear()
+    def outer(kind, member):
+        nt = {'opt': _nt.OptionalNamedType, 'def': _nt.DefaultedNamedType, 'req': _nt.NamedType}[member]
+        lst = (_u.SequenceOf if kind == 'seqof' else _u.SetOf)(componentType=el)
+        if member == 'def': lst = lst.clone(); lst.clear()
+        return _u.Sequence(componentType=_nt.NamedTypes(_nt.NamedType('k', _u.Integer()), nt('items', lst)))
+    uses = {'none': lambda o: None, 'str': lambda o: str(o), 'repr': lambda o: repr(o), 'isValue': lambda o: (o.isValue, o['items'].isValue),
+            'eq': lambda o: o == o.clone(), 'encode-attempt': lambda o: _der.encode(o), 'prettyPrint': lambda o: o.prettyPrint(), 'len+iter': lambda o: (len(o['items']), list(o['items']))}
+    for kind in ('seqof', 'setof'):
+        for member in ('opt', 'def', 'req'):
+            for nel in (1, 2):
+                for uname, use in uses.items():
+                    for when in ('before-any', 'after-first'):
+                        T = outer(kind, member)
+                        want = T.clone(); want['k'] = 7
+                        for i in range(nel):
+                            e = el.clone(); e['id'] = i + 1
+                            want['items'].append(e)
+                        live = T.clone(); live['k'] = 7
+                        try:
+                            for i in range(nel):
+                                item = live['items'][i]                 # comes into being by this read
+                                if when == 'before-any' or i > 0:
+                                    try: use(live)
+                                    except Exception: pass
+                                item['id'] = i + 1                      # completed in place
+                        except Exception as ex:
+                            ctx.stats['completed-in-place: history not possible (%s)' % type(ex).__name__] += 1
+                            continue
+                        ctx.case(('completed-in-place', kind, member, nel, uname, when), True)
+                        ctx.stats['completed-in-place histories'] += 1
+                        for cname, enc in (('DER', _der), ('CER', _cer), ('BER', _ber)):
+                            try: a = bytes(enc.encode(live)).hex()
+                            except Exception as ex: a = 'raised %s' % type(ex).__name__
+                            b = bytes(enc.encode(want)).hex()
+                            if a != b:
+                                ctx.prop_fail('%s of a value whose list element was completed in place after the value had been used differs from the same content built by append' % cname,
+                                              {'list': kind, 'member': member, 'elements': nel, 'use_between': uname, 'when': when, 'got': a, 'want': b},
+                                              finding=None)
+                                break
+
+
 def run(ctx):
     ctx.rule = ('random (type, value) of the universe (depth<=3) plus targeted SET/SET OF/DEFAULT cases and SEQUENCE/SET types with DEFAULT components of SEQUENCE OF / SEQUENCE type (multi-member defaults; values equal to the default, absent, reordered, different); per case one plain object and one '
                 'built by a random construction history (random assignment order by name/position/tag, SET OF members shuffled, DEFAULT '
@@ -969,6 +1021,7 @@ def run(ctx):
     for n, c in enumerate(cases):
         for rep in range(2 if base_desc(c.T)[0] in CONSTRUCTED else 1):
             check_case(ctx, c, wild=(n % 5 == 4 and rep == 1), exprs=exprs, meta=meta)
+    completed_in_place_histories(ctx)
     ctx.sample({'type': jsonable(cases[0].T), 'value': jsonable(cases[0].v)})
     if exprs:
         codes = core.coq_codes('c04', 'Model.Enc Model.Dec Model.Obs', exprs)
